@@ -20,7 +20,7 @@ def main():
     f = post['fit']
     assert abs(f['b'] - 2.3) < 1e-12 and abs(f['a'] - 0.8) < 1e-12, f
     assert post['df'] == 2
-    assert abs(stats.corr([1, 2, 3], [2, 4, 6.5]) - 0.9958705948858224) < 1e-12
+    assert abs(stats.corr([1, 2, 3], [2, 4, 6.5]) - 4.5 / (61.0 / 3.0) ** 0.5) < 1e-12
     os.makedirs(os.path.join(env.VERIF_DIR, 'evidence'), exist_ok=True)
     print('selftest ok; library at', env.REPO)
 
